@@ -37,7 +37,8 @@ def _fold(folder, rd, tt_lang, divs):
         d = r.attrs["_captions"]
     else:
         raise AnalysisError(f"DFXPReader.read: folded result is not a CaptionSet of a dict ({r!r:.60})")
-    return [(k, v[0][1] if isinstance(v, list) and v and isinstance(v[0], tuple) else v) for k, v in d.items()]
+    # per language: the indices of the divs whose lists it holds, in order
+    return [(k, [x[1] for x in v if isinstance(x, tuple)] if isinstance(v, list) else v) for k, v in d.items()]
 
 
 def run(ctx, report):
@@ -74,7 +75,7 @@ def _world(folder, rd, default, configured, label_bad, fallback_bad, order_bad, 
                 eff = [l if l is not None else (tt_lang if tt_lang is not None else default) for l in divs]
                 want = {}
                 for i, l in enumerate(eff):
-                    want[l] = i           # a repeated language keeps its first position, the later div's list
+                    want.setdefault(l, []).append(i)     # a language spread over several divs holds all of them, in order
                 case = {"tt_lang": tt_lang, "div_langs": list(divs), "read_as": got,
                         **({"configured_default_language": configured} if configured else {})}
                 if not isinstance(got, list):
@@ -94,7 +95,8 @@ def _world(folder, rd, default, configured, label_bad, fallback_bad, order_bad, 
 def _report(report, rd, n, label_bad, order_bad, fallback_bad):
     default = None
     report.count("dfxp_stub_documents", n)
-    report.check(not label_bad, "R-LABEL", rd, "each div's captions are stored under that div's own language",
+    report.check(not label_bad, "R-LABEL", rd, "each div's captions are stored under that div's own language (all divs of a language, in "
+                 "document order)",
                  {"documents": n, "mismatches": label_bad[:2]}, "2")
     report.check(not order_bad, "R-APPEND-ORDER", rd, "languages are listed in order of first appearance",
                  {"documents": n, "mismatches": order_bad[:2]}, "2")
